@@ -94,12 +94,14 @@ type nodeSnap struct {
 	dist     float64
 	children []*newick.Node
 	first    **newick.Node
+	isNil    bool // Children == nil (as opposed to empty)
+	capacity int
 }
 
 func snapshot(nodes []*newick.Node) []nodeSnap {
 	out := make([]nodeSnap, len(nodes), len(nodes)+1)
 	for i, n := range nodes {
-		out[i] = nodeSnap{name: n.Name, dist: n.Distance, children: append([]*newick.Node(nil), n.Children...)}
+		out[i] = nodeSnap{name: n.Name, dist: n.Distance, children: append([]*newick.Node(nil), n.Children...), isNil: n.Children == nil, capacity: cap(n.Children)}
 		if len(n.Children) > 0 {
 			out[i].first = &n.Children[0]
 		}
@@ -120,6 +122,9 @@ func sameSnapshot(nodes []*newick.Node, snap []nodeSnap) error {
 		}
 		if len(n.Children) > 0 && &n.Children[0] != s.first {
 			return fmt.Errorf("children slice of node %d was reallocated by the traversal", i)
+		}
+		if (n.Children == nil) != s.isNil || cap(n.Children) != s.capacity {
+			return fmt.Errorf("the Children field of node %d was rewritten by the traversal: nil %v -> %v, capacity %d -> %d (an empty slice the caller had preallocated)", i, s.isNil, n.Children == nil, s.capacity, cap(n.Children))
 		}
 	}
 	return nil
